@@ -183,6 +183,11 @@ func HoldRefreshesBySystem(st *state.State, level HoldLevel, holdTime string, ho
 		}
 
 		holdDuration = holdTime.Sub(timeNow())
+		if holdDuration == 0 {
+			// zero means "forever" to HoldRefresh, but a hold until
+			// this very instant is one that is already over
+			holdDuration = -1
+		}
 	}
 
 	_, err = HoldRefresh(st, level, "system", holdDuration, holdSnaps...)
